@@ -1379,7 +1379,7 @@ pub struct RunCfg {
 
 pub fn draw_cfg(rng: &mut Rng, prop: Prop, thorough: bool, kind: Kind) -> RunCfg {
 	let sw = Swarm::draw(rng, kind.is_iri());
-	let (ms, mb) = if thorough { (*rng.pick(&[3, 6, 12, 24, 40]), *rng.pick(&[2, 4, 8, 16])) } else { (*rng.pick(&[2, 3, 5, 8]), *rng.pick(&[2, 3, 4, 6])) };
+	let (ms, mb) = if thorough { (*rng.pick(&[3, 6, 12, 24, 40, 40, 80]), *rng.pick(&[2, 4, 8, 16])) } else { (*rng.pick(&[2, 3, 5, 8]), *rng.pick(&[2, 3, 4, 6])) };
 	let w_life = match rng.below(6) {
 		0 => [1, 0, 0],  // never give the handle up
 		1 => [0, 1, 0],  // reopen before every op
